@@ -37,7 +37,7 @@ HOSTILE = [
     b"++<<<<<<<", b"++>>>>>>>",
     b"commit " + H40, b"commit x", b"commit " + H40 + b" (HEAD -> main)",
     b" f.rs | 2 +-", b" 1 file changed, 1 insertion(+)", b" a => b | 0",
-    b" x", b"-x", b"+x", b"-", b"+", b" ", b"",
+    b" x", b"-x", b"+x", b"-", b"+", b" ", b"", b"-\xe6\xbc\xa2a", b"+a\xe6\xbc\xa2\xe6\xbc\xa2", b" \xe6\xbc\xa2",
     b"-\xc3\xa9", b"+\xe2\x82\xac", b"+\xf0\x9f\x98\x80", b"\xe2\x82\xac\xe2\x82\xac",
     b"\xc3\xa9x", b"\xf0\x9f\x98\x80", b" \xe2\x82\xac", b"-\xe2\x82\xac\xe2\x82\xac", b"+ \xe2\x82\xac",
     b"\\ No newline at end of file", b"\\",
@@ -266,6 +266,10 @@ def plan(tier):
     # quick: depth 3 for the default vector and the four views; depth 2 for other deviations
     if tier == "quick":
         for label, ov in [("view=sbs", {"side-by-side": True}), ("view=ln", {"line-numbers": True}),
+                          ("sbs,width=16,wrap=unlimited", {"side-by-side": True, "width": "16",
+                                                           "wrap-max-lines": "unlimited"}),
+                          ("sbs,width=15,wrap=unlimited", {"side-by-side": True, "width": "15",
+                                                           "wrap-max-lines": "unlimited"}),
                           ("syntax=on", {"syntax-theme": "Monokai Extended"}),
                           ("preset=color-only", {"color-only": True})]:
             hostile.append((label + "/d3", ov, None, None, 3, True))
